@@ -28,6 +28,7 @@ class StreamFromGenerator(DefaultPublisherSubscription, Disposable):
         self._delay_between_messages = delay_between_messages
         self._subscriber: Optional[Subscriber] = None
         self._payload_feeder = None
+        self._generator = None
         self._iteration = None
         self._request_n_queue = asyncio.Queue()
         self._n_feeder = None
@@ -39,7 +40,8 @@ class StreamFromGenerator(DefaultPublisherSubscription, Disposable):
         self._iteration = iter(self._generator)
 
     def dispose(self):
-        self._generator.close()
+        if self._generator is not None:
+            self._cancel_generator()
 
     def subscribe(self, subscriber: Subscriber):
         super().subscribe(subscriber)
